@@ -91,6 +91,10 @@ def run(chk):
                     chk.violation("crc-correspondence-vm", "vm_compute evaluation of the CRC model disagrees with the implementation",
                                   {"coq_output": vout[-2000:], "expected": exp})
 
+    # ---- must-reject classes generated from the model (checksum-valid malformed frames)
+    mst = codec_common.run_mutants(chk, profiles=("release",)) if proof_ok else {}
+    chk.coverage["model_generated_malformed_streams"] = mst
+
     # ---- property searcher results
     for v in viols:
         chk.violation(v["key"], v["desc"], {k: v[k] for k in v if k not in ("t",)})
